@@ -1559,3 +1559,252 @@ def blend_identity(P, rep, rule="FOLD.blend"):
                               "an unset (zero) matrix becomes the identity matrix" % name.lower(), key="%s|%s|orientation" % (rule, cls),
                               witness="a plate without grains models crossed by a %s without grains models, grains requested inside it" % name.lower())
     rep.floor(rule, n, 2, "orientation blends in line features")
+
+
+# ------------------------------------------------------------------------------------------------
+def gaussian_top_side(P, rep, rule="EXPR.massconserving.top"):
+    """C20, mass-conserving slab: the side above the slab's coldest surface"""
+    rep.rule(rule, "MassConserving::get_temperature_analytic, side above the coldest surface (adjusted distance < 0): the Gaussian "
+                   "T_ + Q/(rho c sqrt(pi kappa t)) exp(-x^2/(4 kappa t)) with t = (Q/(rho c (T_min - T_)))^2/(pi kappa) attains T_min at "
+                   "x = 0 when Q < 0 and T_ > T_min (it joins the lower side there and stays between T_min and T_); it is entered only "
+                   "when the incoming temperature is not below T_min - otherwise the result would be 2 T_ - T_min, below both end members")
+    F = P.func("WorldBuilder::Features::SubductingPlateModels::Temperature::MassConserving::get_temperature_analytic")
+    # the incoming temperature by position in the callee's signature is not reliable under reordering: take it from the call in
+    # get_temperature, where the model's incoming value parameter is passed
+    G = P.func("WorldBuilder::Features::SubductingPlateModels::Temperature::MassConserving::get_temperature")
+    inc_outer = incoming_param(P, G, "Temperature")
+    inc = None
+    for c in G.walk():
+        if c.get("k") == "CXXMemberCallExpr" and c.get("callee") == F.key:
+            for i, a in enumerate(c["c"][1:]):
+                if astq.is_ref_to(sc(a), inc_outer):
+                    inc = F.params[i]
+    if inc is None:
+        raise AnalysisBroken("%s: incoming temperature argument not found in the call from get_temperature" % F.qn)
+    # the assignment  temperature = T_ + (...) * exp(...)  in the else branch of an if
+    cands = []
+    for x in F.walk():
+        if x.get("k") == "BinaryOperator" and x.get("op") == "=" and any(
+                y.get("k") == "CallExpr" and P.d(y.get("callee")).get("qn") in ("std::exp", "exp") for y in F.walk(x["c"][1])) and any(
+                astq.is_ref_to(y, inc) for y in F.walk(x["c"][1])):
+            g = astq.enclosing(F, x, ("IfStmt",))
+            if g is not None and len(g["c"]) > 2 and g["c"][2] is not None:
+                in_else = any(y is x for y in F.walk(g["c"][2]))
+                in_then = any(y is x for y in F.walk(g["c"][1]))
+                if in_else or in_then:
+                    cands.append((x, g, in_else))
+    if len(cands) != 1:
+        raise AnalysisBroken("%s: %d guarded Gaussian assignments" % (F.qn, len(cands)))
+    asg, g, in_else = cands[0]
+    Tm, T_, D, Q, rho, cp, kap, X = sp.symbols("Tmin Tin D Q rho cp kappa x", positive=True)
+    symb = norm.Sym(P, F, inline_locals=True)
+    E = symb(asg["c"][1])
+    # name the symbols by role: parameters by their use in the denominator (T_min - T_ + eps): the one subtracted is the incoming value
+    free = {str(q).split("@")[0]: q for q in E.free_symbols}
+    incname = P.d(inc).get("n")
+    if incname not in free:
+        raise AnalysisBroken("%s: incoming temperature does not occur in the Gaussian" % F.qn)
+    # T_min: the parameter that occurs in a difference with the incoming temperature
+    tmin = None
+    for n in sp.preorder_traversal(E):
+        if n.is_Add:
+            syms_ = [a for a in n.args if a.is_Symbol] + [-a for a in n.args if (-a).is_Symbol]
+            if free[incname] in [(-a) for a in n.args if (-a).is_Symbol] and any(a.is_Symbol and a != free[incname] for a in n.args):
+                tmin = [a for a in n.args if a.is_Symbol and a != free[incname]][0]
+    if tmin is None:
+        raise AnalysisBroken("%s: no difference (T_min - incoming) in the Gaussian" % F.qn)
+    fields = {str(q): q for q in E.free_symbols if str(q).startswith("this.")}
+    consts = {q: sp.pi for q in E.free_symbols if str(q).endswith("Consts::PI")}
+    others = [q for q in E.free_symbols if q not in (free[incname], tmin) and not str(q).startswith("this.") and q not in consts]
+    # Q = the heat content (the remaining parameter other than x); x = the one squared inside exp
+    xs = None
+    dummy = sp.Symbol("exp_")
+    noexp = E.replace(lambda n: n.func == sp.exp, lambda n: dummy)
+    for q in sorted(others, key=str):
+        if not noexp.has(q):       # occurs inside the exponential only
+            xs = q
+    qs = [q for q in others if q != xs]
+    if xs is None or len(qs) != 1:
+        raise AnalysisBroken("%s: heat content / distance symbols not identified (%s)" % (F.qn, others))
+    sub = {xs: 0, qs[0]: -Q, tmin: T_ - D, free[incname]: T_}
+    sub.update(consts)
+    for nm, q in fields.items():
+        sub[q] = sp.Symbol(nm.replace("this.", "p_"), positive=True)
+    E0 = E.xreplace(sub)
+    E0 = E0.xreplace({f: sp.Integer(0) for f in E0.atoms(sp.Float, sp.Rational) if 0 < abs(float(f)) <= 1e-12})
+    E0 = sp.simplify(E0)
+    at0 = sp.simplify(E0 - (T_ - D))
+    if at0 == 0:
+        rep.ok(rule, "at x = 0 with Q < 0, T_ > T_min the Gaussian side equals T_min (eps terms dropped)", F.nloc(asg), F.qn, norm.render(P, asg)[:120])
+    else:
+        rep.violation(rule, "Gaussian side at x = 0 is %s, not T_min = Tin - D" % E0, F.nloc(asg), F.qn, norm.render(P, asg)[:160],
+                      "the two sides of the slab's coldest surface do not join at the minimum temperature: the profile leaves [T_min, T_] there",
+                      key=rule + "|join", witness="mass conserving slab, point just above the coldest surface")
+    # everywhere on that side: T = T_ - D w with w = exp(nonpositive) in (0, 1], i.e. between T_min and T_
+    xr = sp.Symbol("x", real=True)
+    sub_x = dict(sub)
+    sub_x[xs] = xr
+    Ex = E.xreplace(sub_x)
+    Ex = Ex.xreplace({f: sp.Integer(0) for f in Ex.atoms(sp.Float, sp.Rational) if 0 < abs(float(f)) <= 1e-12})
+    w = sp.simplify((T_ - Ex) / D)
+    if w.func == sp.exp and w.args[0].is_nonpositive:
+        rep.ok(rule, "on the whole side T = T_ - (T_ - T_min) exp(%s): between T_min and T_" % w.args[0], F.nloc(asg), F.qn)
+    else:
+        rep.violation(rule, "Gaussian side is T_ - (T_ - T_min) * (%s)" % w, F.nloc(asg), F.qn, norm.render(P, asg)[:160],
+                      "the weight is not exp(nonpositive): the side above the coldest surface is not confined between T_min and T_",
+                      key=rule + "|weight", witness="mass conserving slab, points above the coldest surface")
+    # the guard
+    c = sc(g["c"][0])
+    okg = False
+    if c.get("k") == "BinaryOperator" and c.get("op") in ("<", "<=", ">", ">="):
+        try:
+            e = sp.simplify((symb(c["c"][0]) - symb(c["c"][1])).xreplace({tmin: T_ - D, free[incname]: T_}))
+        except Exception:
+            e = None
+        if e is not None:
+            below = (e == D and c["op"] in ("<", "<=")) or (e == -D and c["op"] in (">", ">="))     # cond <=> incoming below T_min
+            above = (e == D and c["op"] in (">", ">=")) or (e == -D and c["op"] in ("<", "<="))     # cond <=> incoming above T_min
+            okg = (below and in_else) or (above and not in_else)
+    if okg:
+        rep.ok(rule, "the Gaussian side is entered only when the incoming temperature is not below T_min: `%s`" % norm.render(P, c), F.nloc(g), F.qn)
+    else:
+        rep.violation(rule, "the Gaussian side is guarded by `%s`" % norm.render(P, c), F.nloc(g), F.qn, norm.render(P, c),
+                      "for an incoming temperature below T_min the Gaussian gives 2 T_ - T_min, colder than both end members (below the surface "
+                      "temperature in the overriding plate)", key=rule + "|guard",
+                      witness="mass conserving slab under a cold overriding plate: point above the slab top whose painted temperature is below the slab's minimum temperature")
+
+
+def conductive_bottom_side(P, rep, rule="EXPR.massconserving.bottom"):
+    """C20, mass-conserving slab: the side below the slab's coldest surface"""
+    rep.rule(rule, "MassConserving::get_temperature_analytic, side below the coldest surface (adjusted distance x >= 0): the half-space form is "
+                   "T_b + (T_min - T_b) erfc(x / (2 sqrt(kappa t))) - T_min at x = 0, T_b as x -> infinity, weight erfc(nonnegative); the "
+                   "plate form is T_b + (T_min - T_b)(1 - x/L) minus series terms that vanish at x = 0 and x = L for every integer index, used for "
+                   "x < L with the same L, and T_b beyond; both reference models share T_min and T_b")
+    F = P.func("WorldBuilder::Features::SubductingPlateModels::Temperature::MassConserving::get_temperature_analytic")
+    # the side split: the first if whose condition compares a parameter with 0
+    split = None
+    for x in F.walk():
+        if x.get("k") == "IfStmt" and len(x["c"]) > 2 and x["c"][2] is not None:
+            c = sc(x["c"][0])
+            if c.get("k") == "BinaryOperator" and c.get("op") in ("<", "<=") and sc(c["c"][0]).get("k") == "DeclRefExpr" and sc(c["c"][0]).get("r") in F.params \
+                    and sc(c["c"][1]).get("k") in ("IntegerLiteral", "FloatingLiteral") and float(sc(c["c"][1])["v"]) == 0.0:
+                split = x
+                break
+    if split is None:
+        raise AnalysisBroken("%s: side split `x < 0` not found" % F.qn)
+    xk = sc(sc(split["c"][0])["c"][0])["r"]
+    symb = norm.Sym(P, F, inline_locals=False, inline_consts=True)
+    X = sp.Symbol("x", positive=True)
+    I = sp.Symbol("i", integer=True, positive=True)
+    asgs = [a for a in F.walk(split["c"][2]) if a.get("k") == "BinaryOperator" and a.get("op") == "=" and sc(a["c"][0]).get("k") == "DeclRefExpr"]
+    tgt = {sc(a["c"][0])["r"] for a in asgs}
+    if len(tgt) != 1:
+        raise AnalysisBroken("%s: the lower side assigns %d different locals" % (F.qn, len(tgt)))
+    tk = tgt.pop()
+
+    def pos(E):
+        """parameters/fields as positive symbols, x by role, loop counters as positive integers, pi exact"""
+        sub = {}
+        for q in E.free_symbols:
+            nm = str(q)
+            k = symb.keys.get(q)
+            if k == xk:
+                sub[q] = X
+            elif nm.endswith("Consts::PI"):
+                sub[q] = sp.pi
+            elif k is not None and k not in F.params and k != tk:
+                sub[q] = I if "int" in (P.d(k).get("t") or "") else sp.Symbol(nm.split("@")[0], positive=True)
+            elif k != tk:
+                sub[q] = sp.Symbol(nm.split("@")[0].replace("this.", "p_"), positive=True)
+        return E.xreplace(sub)
+    ends = {}     # form -> (value at 0, far value)
+    n = 0
+    for a in asgs:
+        rhs = sc(a["c"][1])
+        E = pos(symb(rhs))
+        loop = astq.enclosing(F, a, ("ForStmt",))
+        tsym = [q for q in E.free_symbols if symb.keys.get(q) == tk]
+        n += 1
+        if loop is not None:
+            if len(tsym) != 1:
+                rep.violation(rule, "series step does not update the running temperature", F.nloc(a), F.qn, norm.render(P, a)[:120], "", key=rule + "|series-form")
+                continue
+            term = sp.simplify(E - tsym[0])
+            Ls = _plate_thickness(term, X)
+            z0 = sp.simplify(term.subs(X, 0))
+            zL = sp.simplify(term.subs(X, Ls)) if Ls is not None else None
+            if z0 == 0 and zL == 0:
+                rep.ok(rule, "plate series term vanishes at x = 0 and x = %s for every integer index" % Ls, F.nloc(a), F.qn)
+                ends.setdefault("plate", {})["L_series"] = Ls
+            else:
+                rep.violation(rule, "plate series term is %s at x = 0 and %s at x = L" % (z0, zL), F.nloc(a), F.qn, norm.render(P, a)[:160],
+                              "the series shifts the temperature at the coldest surface or at the plate's base away from T_min / T_b",
+                              key=rule + "|series-ends", witness="mass conserving slab with the plate reference model: point on the coldest surface / at distance max depth below it")
+            continue
+        if tsym:
+            rep.violation(rule, "lower side: %s" % norm.render(P, a)[:100], F.nloc(a), F.qn, "", "unexpected update of the running temperature", key=rule + "|update")
+            continue
+        if E.has(sp.erfc) or E.has(sp.erf):
+            v0 = sp.simplify(E.subs(X, 0))
+            vinf = sp.limit(E, X, sp.oo)
+            ends["half space"] = {"at0": v0, "far": vinf}
+            w = sp.simplify((E - vinf) / (v0 - vinf)) if v0 != vinf else None
+            if w is not None and w.func == sp.erfc and (w.args[0].is_nonnegative or w.args[0].is_positive) and v0.is_Symbol and vinf.is_Symbol:
+                rep.ok(rule, "half-space form: %s at x = 0, %s as x -> oo, weight erfc(%s)" % (v0, vinf, w.args[0]), F.nloc(a), F.qn)
+            else:
+                rep.violation(rule, "half-space form: %s at x = 0, %s as x -> oo, weight %s" % (v0, vinf, w), F.nloc(a), F.qn, norm.render(P, a)[:160],
+                              "not a convex combination of the minimum and the ambient temperature", key=rule + "|halfspace",
+                              witness="mass conserving slab with the half space reference model, points below the coldest surface")
+        elif E.has(X):
+            v0 = sp.simplify(E.subs(X, 0))
+            Ls = _plate_thickness(E, X)
+            vL = sp.simplify(E.subs(X, Ls)) if Ls is not None else None
+            ends.setdefault("plate", {}).update({"at0": v0, "far": vL, "L": Ls})
+            # used only for x < L
+            g = astq.enclosing(F, a, ("IfStmt",))
+            gc = sc(g["c"][0]) if g is not None else None
+            okg = False
+            if gc is not None and gc.get("k") == "BinaryOperator" and gc.get("op") in ("<", "<="):
+                try:
+                    okg = sp.simplify(pos(symb(gc["c"][0])) - X) == 0 and sp.simplify(pos(symb(gc["c"][1])) - Ls) == 0
+                except Exception:
+                    okg = False
+            try:
+                deg = sp.Poly(sp.expand(E), X).degree()
+            except Exception:
+                deg = -1
+            if deg == 1 and v0.is_Symbol and vL is not None and vL.is_Symbol and okg:
+                rep.ok(rule, "plate form: linear from %s at x = 0 to %s at x = %s, used for x < %s" % (v0, vL, Ls, Ls), F.nloc(a), F.qn)
+            else:
+                rep.violation(rule, "plate form: %s at x = 0, %s at x = %s (guard `%s`)" % (v0, vL, Ls, norm.render(P, gc) if gc else "-"), F.nloc(a), F.qn,
+                              norm.render(P, a)[:160], "the conductive profile of the plate does not run from T_min at the coldest surface to T_b at its base",
+                              key=rule + "|plate", witness="mass conserving slab with the plate reference model, points below the coldest surface")
+        else:
+            ends.setdefault("beyond", []).append((E, a))
+    far = {str(v.get("far")) for k, v in ends.items() if k in ("half space", "plate")}
+    at0 = {str(v.get("at0")) for k, v in ends.items() if k in ("half space", "plate")}
+    bey = {str(e) for e, _ in ends.get("beyond", [])}
+    ls = {str(ends.get("plate", {}).get("L")), str(ends.get("plate", {}).get("L_series", ends.get("plate", {}).get("L")))}
+    if len(far) == 1 and len(at0) == 1 and bey <= far and len(ls) == 1 and "half space" in ends and "plate" in ends:
+        rep.ok(rule, "both reference models run from %s to %s; beyond the plate's base %s; one plate thickness %s" % (at0.pop(), far.pop(), sorted(bey), ls.pop()), F.loc, F.qn)
+    else:
+        rep.violation(rule, "end members: at the coldest surface %s, far %s, beyond the base %s, thickness %s" % (sorted(at0), sorted(far), sorted(bey), sorted(ls)), F.loc, F.qn, "",
+                      "the reference models disagree on the minimum / ambient temperature or on the plate thickness", key=rule + "|ends",
+                      witness="the same slab with reference model plate and half space")
+    rep.floor(rule, n, 4, "assignments on the lower side")
+
+
+def _plate_thickness(E, X):
+    """the L of x/L: the positive symbol dividing x in E"""
+    for n in sp.preorder_traversal(E):
+        if n.is_Mul and n.has(X):
+            num, den = n.as_numer_denom()
+            if den.is_Symbol and num.has(X):
+                return den
+            for f in den.as_ordered_factors() if den.is_Mul else []:
+                pass
+    for n in sp.preorder_traversal(E):
+        if n.is_Pow and n.exp == -1 and n.base.is_Symbol:
+            if any(m.is_Mul and m.has(X) and m.has(n) for m in sp.preorder_traversal(E)):
+                return n.base
+    return None
